@@ -15,7 +15,7 @@ def drv(focus, n=None, tags="verif"):
                 args=args, tags=tags, timeout=dict(quick=600, thorough=3000))
 
 
-RULE = ("each case starts the real engine (1 loop; LT / ET / ET+chunk; tcp or unix; reactor or reuse-port; "
+RULE = ("each case starts the real engine (1 loop -- or 2-4 loops in the `multi` runs, where loop 0 is modelled and the others are judged by the direct oracles only --; server, or gnet.Client dialling the harness in the `client` runs; LT / ET / ET+chunk; tcp or unix; reactor or reuse-port; "
         "read-buffer 1-64 KiB; optional 4 KiB SO_SNDBUF) from the current tree with x/sys/unix swapped for the "
         "vunix shim, runs 4-30 seeded steps (peer connect / send of sizes around the read-buffer size / receive / "
         "half-close / close / reset, AsyncWrite(v) / Wake / Close / CloseWithCallback from another goroutine, "
